@@ -18,6 +18,7 @@ INVARIANT LawOriginFree
 INVARIANT BoxLaws
 INVARIANT RectLaws
 INVARIANT LawBracket
+INVARIANT LawSeparateSym
 INVARIANT ExtentsInRange
 PROPERTY Terminates
 CHECK_DEADLOCK FALSE
